@@ -196,3 +196,91 @@ Proof.
   eexists. split; [reflexivity|].
   destruct (closes (r_code r500)), (is_1xx (r_code r500)); reflexivity.
 Qed.
+
+(* ---------------------------------------------------------------- connections that already carried traffic *)
+Lemma skipn_app_len {A} (p x : list A) : skipn (length p) (p ++ x) = x.
+Proof. rewrite skipn_app, skipn_all, Nat.sub_diag. reflexivity. Qed.
+
+Section Prior.
+  Variable reason : N -> bytes.
+  Variable ct_text : nat -> bytes.
+  Notation full_wire := (full_wire reason ct_text).
+  Notation cwr := (conn_write_response reason ct_text).
+
+  (* the connection-level oracle holds whatever the connection has carried before: the prior wire is arbitrary *)
+  Lemma oracle_c08_conn_any_prior c r r500 :
+    c_ws c = WsResponse -> r_normal r500 = true -> collides r500 = false ->
+    let '(res, res2, c2) := conn_exchange reason ct_text c r r500 in
+    exists x, c_wire c2 = c_wire c ++ x /\
+              oracle_c08_conn reason ct_text r r500 res (c_ws (snd (cwr c r))) res2 x = true.
+  Proof.
+    intros Hs Hn5 Hc5. unfold conn_exchange. destruct (cwr c r) as [res c1] eqn:HC. cbn [snd].
+    destruct (cwr_spec reason ct_text c r _ _ Hs HC) as (acc & Hw & Hp & R).
+    unfold oracle_c08_conn. destruct res as [e|]; cbn [conn_after_result].
+    2:{ exists acc. split; [exact Hw|]. destruct R as (-> & _ & Hst & Hdel). rewrite Hst, Hdel, beq_refl. unfold final_state.
+        destruct (closes (r_code r)), (is_1xx (r_code r)); reflexivity. }
+    destruct R as (Hsh & Hz & _).
+    destruct acc as [|x acc].
+    - destruct (Hz eq_refl) as (Hst & _). rewrite Hst. rewrite app_nil_r in Hw.
+      destruct (is_disconnected e).
+      + exists []. rewrite app_nil_r. auto.
+      + destruct (cwr c1 r500) as [res2 c2] eqn:HC2.
+        destruct (cwr_spec reason ct_text c1 r500 _ _ Hst HC2) as (acc2 & Hw2 & Hp2 & R2). rewrite Hw in Hw2.
+        rewrite Hn5, Hc5 in Hp2. cbn [andb negb] in Hp2. destruct Hp2 as (suf & Hp2).
+        cbn [shutdown_write c_wire]. exists acc2. split; [exact Hw2|]. destruct res2 as [e2|].
+        * rewrite Hp2. apply starts_with_app.
+        * destruct R2 as (-> & _). apply beq_refl.
+    - destruct (Hsh ltac:(discriminate)) as (Hst & _). rewrite Hst.
+      assert (Hpre : exists suf, full_wire r (closes (r_code r)) = (x :: acc) ++ suf).
+      { destruct (r_normal r && negb (collides r)); [exact Hp|discriminate]. }
+      destruct Hpre as (suf & Hpre).
+      destruct (is_disconnected e).
+      + exists (x :: acc). split; [exact Hw|]. rewrite Hpre. cbn [is_empty negb andb]. apply starts_with_app.
+      + destruct (cwr c1 r500) as [res2 c2] eqn:HC2. rewrite cwr_shutdown in HC2 by assumption.
+        inversion HC2; subst. cbn [shutdown_write c_wire]. exists (x :: acc). split; [exact Hw|].
+        rewrite Hpre. cbn [is_empty negb andb]. apply starts_with_app.
+  Qed.
+
+  Lemma conn_prefix_spec : forall pre c,
+    c_ws c <> WsShutdown -> writer_errfree (c_writer c) = true ->
+    forallb prefix_resp_ok pre = true ->
+    c_ws (conn_prefix reason ct_text c pre) = WsResponse /\
+    c_wire (conn_prefix reason ct_text c pre) = c_wire c ++ prior_wire reason ct_text pre /\
+    writer_errfree (c_writer (conn_prefix reason ct_text c pre)) = true.
+  Proof.
+    induction pre as [|p t IH]; intros c Hs Hw Hp.
+    - cbn [conn_prefix prior_wire map concat]. rewrite app_nil_r. unfold conn_next_request.
+      destruct (c_ws c) eqn:E; cbn; auto. congruence.
+    - cbn [forallb] in Hp. apply andb_true_iff in Hp as [Hp Ht]. unfold prefix_resp_ok in Hp.
+      apply andb_true_iff in Hp as [Hp Hcl]. apply andb_true_iff in Hp as [Hp Hb]. apply andb_true_iff in Hp as [Hn Hc].
+      apply negb_true_iff in Hc, Hcl.
+      cbn [conn_prefix]. set (c0 := conn_next_request c).
+      assert (H0 : c_ws c0 = WsResponse /\ c_wire c0 = c_wire c /\ c_writer c0 = c_writer c).
+      { unfold c0, conn_next_request. destruct (c_ws c) eqn:E; cbn; auto. congruence. }
+      destruct H0 as (H0s & H0w & H0r).
+      unfold conn_write_response at 1 2 3. rewrite H0s.
+      destruct (W_sound reason ct_text p (closes (r_code p)) (c_writer c0) Hn Hc Hb ltac:(now rewrite H0r)) as (w' & -> & Hw').
+      rewrite Hcl. cbn [snd].
+      match goal with |- context [conn_prefix reason ct_text ?X t] => set (c1 := X) end.
+      assert (H1 : c_ws c1 <> WsShutdown /\ c_wire c1 = c_wire c ++ full_wire p false /\ c_writer c1 = w').
+      { unfold c1. destruct (is_1xx (r_code p)); cbn; rewrite ?H0s, ?H0w; repeat split; congruence. }
+      destruct H1 as (H1s & H1w & H1r).
+      destruct (IH c1 H1s ltac:(now rewrite H1r) Ht) as (A & B & C).
+      split; [exact A|]. split; [|exact C].
+      rewrite B, H1w. cbn [prior_wire map concat]. rewrite Hcl. now rewrite <- app_assoc.
+  Qed.
+
+  Lemma oracle_c08_session_model c pre r r500 :
+    c_ws c <> WsShutdown -> c_wire c = [] -> writer_errfree (c_writer c) = true ->
+    forallb prefix_resp_ok pre = true -> r_normal r500 = true -> collides r500 = false ->
+    let '(res, st1, res2, c2) := conn_session reason ct_text c pre r r500 in
+    oracle_c08_session reason ct_text pre r r500 res st1 res2 (c_wire c2) = true.
+  Proof.
+    intros Hs Hw0 Hw Hp Hn5 Hc5. unfold conn_session.
+    destruct (conn_prefix_spec pre c Hs Hw Hp) as (A & B & _). rewrite Hw0 in B. cbn [app] in B.
+    pose proof (oracle_c08_conn_any_prior (conn_prefix reason ct_text c pre) r r500 A Hn5 Hc5) as H.
+    destruct (conn_exchange reason ct_text (conn_prefix reason ct_text c pre) r r500) as [[res res2] c2].
+    destruct H as (x & Hx & Ho). unfold oracle_c08_session. rewrite Hx, B.
+    rewrite starts_with_app, skipn_app_len. exact Ho.
+  Qed.
+End Prior.
